@@ -128,10 +128,6 @@ theorem find_G : iface.find G.name = some G := by
   have : (ascii "f" == ascii "get") = false := by decide
   simp [iface, Iface.find, List.find?, F, G, this]
 
-theorem fresh_F : OutsFresh env sigF [.int 70000, zeroS] := by
-  simp [OutsFresh, sigF, outFields, outFieldsFrom, outVals, argField, OldOKs, OldOK, zeroS, Ready,
-    find_S, sFields, ReadyMembers, Ty.isAtom, Ty.isScalar, scalarZero]
-
 end C01Example
 
 end Tars
